@@ -11,7 +11,7 @@ class Prop:
     RULE = ('exhaustive tabulation, re-measured at every run: every public method of the real RPCInterface (found by '
             'reflection; an unclassified method breaks the check) x the 9 Supvisors states x {Master, non-Master, no '
             'Master} x the parameter domain of the method (full product of valid / unknown / unmanaged / wrong-state '
-            'application, known / unknown / group / bare / non-string namespec, identifier / nick / stereotype / '
+            'application, known / unknown / group / bare / non-string namespec, identifier / nick / one-instance stereotype / two-instance stereotype / '
             'unknown / empty / stopped instance, known / unknown program, numprocs, log level, regex; valid and '
             'unknown-string strategy crossed with the names, the int / wrong-type strategies and wait=False with '
             'otherwise valid parameters; USER option on/off for end_sync; jobs in progress for restart_sequence; '
